@@ -206,6 +206,12 @@ def run(job):
             acc.states += 1
             if check(acc, space.rename(desc, {"a": "aux_in_sel", "b": "aux_in_q7", "g1": "aux_in_"})):
                 acc.nontrivial += 1
+        if (_idx // job["of"]) % 4 == 3:
+            # bus-bit names next to their flattened spelling (y[0] and y_0_ are two different nets): every name the
+            # transform derives from a node name has to stay injective
+            acc.states += 1
+            if check(acc, space.rename(desc, {"a": "d[0]", "b": "d_0_", "g0": "y[0]", "g1": "y_0_", "g2": "y[1]"})):
+                acc.nontrivial += 1
         if (_idx // job["of"]) % 8 == 0:
             acc.states += 2
             check(acc, desc, repeat=True)
